@@ -233,6 +233,8 @@ class Run:
         self.world = spec['world']
         self.sw = spec.get('swarm', {})
         self.fine = bool(self.sw.get('fine')) and self.world == 'thread' and sched.monitoring_available()
+        # ultra: pre-emption (and F12) between any two *bytecodes* of the library functions, not only lines
+        self.ultra = self.fine and bool(self.sw.get('ultra'))
         self.park_cb = bool(self.sw.get('park_cb')) and self.world == 'thread'
         self.share = bool(self.sw.get('share', True))
         self.watchdog_s = watchdog_s
@@ -412,7 +414,13 @@ class Run:
             # would wedge every other actor that calls the same jitted function.  Not a yield point.
             self.probe('diag:line_skipped_under_jax_trace')
             return
-        self.probe(f'line:{code.co_name}')
+        if self.ultra:
+            # `line` is a bytecode offset here
+            self.probe(f'instr:{code.co_name}')
+            where = f'@{line}'
+        else:
+            self.probe(f'line:{code.co_name}')
+            where = f'+{line - code.co_firstlineno}'
         if self.async_at:
             self.line_events += 1
             if self.line_events in self.async_at:
@@ -422,8 +430,8 @@ class Run:
                 # exception there defeats every context manager, so injecting it would be a false alarm
                 self.async_pending = False
                 self.faults['async_exc'] += 1
-                self.log(fr, 'fault', {'kind': 'async_exc', 'in': code.co_name, 'line': line - code.co_firstlineno, 'depth': len(self.stacks[fr.ctx]) - 1})
-                raise SimAsyncFault(f'{code.co_name}+{line - code.co_firstlineno}')
+                self.log(fr, 'fault', {'kind': 'async_exc', 'in': code.co_name, 'at': where, 'depth': len(self.stacks[fr.ctx]) - 1})
+                raise SimAsyncFault(f'{code.co_name}{where}')
         before = self.sched.switches
         try:
             self.thread_point(fr, 'line')
@@ -431,7 +439,7 @@ class Run:
             pass
         if self.sched.switches != before:
             # a context switch happened between two lines of library code, here:
-            self.probe(f'preempted:{code.co_name}:+{line - code.co_firstlineno}')
+            self.probe(f'preempted:{code.co_name}:{where}' if not self.ultra else f'preempted_between_bytecodes:{code.co_name}')
 
     # ------------------------------------------------------------------ settings
     def build_kw(self, uid: int, kwspec: dict) -> dict:
@@ -446,6 +454,8 @@ class Run:
                     if self.shared_options is None:
                         self.shared_options = palette.make_options('P', 0)
                     kw['solver_options'] = self.shared_options
+                elif val == 'Z':
+                    kw['solver_options'] = {}
                 else:
                     kw['solver_options'] = palette.make_options(val, uid)
             elif name == 'callback':
@@ -714,6 +724,19 @@ class Run:
             elif shape == 'blockdiag':
                 op = BlockDiagonalOperator([palette.operator('A'), palette.operator('B')]).I
                 ops, fresh, exact = ['A', 'B'], 2, True
+            elif shape == 'blockdict':
+                # dict-of-blocks container, and the `.inverse()` spelling
+                op = BlockDiagonalOperator({'p': palette.operator('B'), 'q': palette.operator('A')}).inverse()
+                ops, fresh, exact = ['B', 'A'], 2, True
+            elif shape.startswith('method:'):
+                opn = shape.split(':')[1]
+                op = palette.operator(opn).inverse()
+                ops, fresh, exact = [opn], 1, True
+            elif shape.startswith('expr:'):
+                # the inverse of a sum / of a scaled operator: InverseOperator over a reduced expression
+                opn = shape.split(':')[1]
+                op = palette.composite_source(opn).I
+                ops, fresh, exact = [opn], 1, True
             elif shape.startswith('comp:'):
                 opn = shape.split(':')[1]
                 op = palette.diag_operator() @ palette.operator(opn).I
@@ -771,15 +794,26 @@ class Run:
         src = vis[stmt[1] % len(vis)]
         kind = stmt[2]
         exact = src.exact
+        partner = None
         try:
             if kind == 'flatten':
                 leaves, treedef = jax.tree.flatten(src.op)
                 op = jax.tree.unflatten(treedef, leaves)
             elif kind == 'reduce':
                 op = src.op.reduce()
-            else:
-                if src.shape == 'blockdiag':
+            elif kind == 'pair-reduce':
+                # two handles composed and reduced: an algebraic rule that rebuilt the inverses would
+                # capture the configuration active *now*
+                cands = [h for h in vis if h.op.in_structure() == palette.structure() and h.op.out_structure() == palette.structure() and h.shape != 'pair' and h.shape != 'nested']
+                if src not in cands or not cands:
                     op = src.op.reduce()
+                else:
+                    partner = cands[(stmt[1] * 7 + 3) % len(cands)]
+                    op = (src.op @ partner.op).reduce()
+                    exact = False
+            else:
+                if src.op.out_structure() != palette.structure():
+                    op = src.op.reduce()  # a block container: nothing of the palette composes with it
                 else:
                     op = (palette.diag_operator() @ src.op).reduce()
                     exact = False
@@ -790,16 +824,21 @@ class Run:
             self.violate(fr, 'N', {'site': 'roundtrip:' + kind, 'why': exc_text(exc)})
             return
         invs = find_inverses(op)
-        caps_obs = observe_captures(invs, len(src.caps)) if src.structural else None
+        shape, ops, caps, structural, src2 = src.shape, src.ops, src.caps, src.structural, None
+        if partner is not None:
+            shape, ops, caps = 'pair', list(src.ops) + list(partner.ops), list(src.caps) + list(partner.caps)
+            structural, src2 = src.structural and partner.structural, partner.h
+            self.probe('pair_of_inverses_reduced')
+        caps_obs = observe_captures(invs, len(caps)) if structural else None
         h = len(self.handles)
         self.log(
             fr,
             'derive',
-            {'h': h, 'src': src.h, 'kind': kind, 'shape': src.shape, 'ops': src.ops, 'exact': exact, 'caps': caps_obs},
+            {'h': h, 'src': src.h, 'src2': src2, 'kind': kind, 'shape': shape, 'ops': ops, 'exact': exact, 'caps': caps_obs},
         )
-        if caps_obs is not None and caps_obs != src.caps:
-            self.violate(fr, 'K', {'site': 'derive:' + kind, 'caps': caps_obs, 'expected': src.caps})
-        handle = Handle(h, src.shape, src.ops, exact, [dict(c) for c in src.caps], op, src.creator, src.creator_ctx)
+        if caps_obs is not None and caps_obs != caps:
+            self.violate(fr, 'K', {'site': 'derive:' + kind, 'caps': caps_obs, 'expected': caps})
+        handle = Handle(h, shape, ops, exact, [dict(c) for c in caps], op, src.creator, src.creator_ctx)
         handle.structural = caps_obs is not None
         self.handles.append(handle)
         fr.actor.own_handles.append(h)
@@ -1321,7 +1360,7 @@ class Run:
             actor.slot = self.sched.register(aid)
             self.actors[aid] = actor
         if self.fine:
-            sched.install_monitor(sched.monitored_codes(), lambda actor, code, line: actor_run(actor).on_line(actor, code, line))
+            sched.install_monitor(sched.monitored_codes(), lambda actor, code, line: actor_run(actor).on_line(actor, code, line), instruction=self.ultra)
         threads = []
         try:
             for aid in sorted(self.actors):
